@@ -39,8 +39,8 @@ def main(tier, prop="C12"):
     for (p, c), (h, m, i, opi) in found.items():
         rep.add_violation(c, f"history #{i}, operation {opi}: {m}", h, "loghistory")
     # second generator (Hypothesis strategies, same executor; shrinks to a minimal history)
-    n_hyp = 8 if tier == "quick" else 64
-    hres = harness.run_batch(logmachine.run_hypothesis, [(seed * 1000 + j, 250 if tier == "quick" else 4000, (prop,)) for j in range(n_hyp)],
+    n_hyp = 8 if tier == "quick" else 32
+    hres = harness.run_batch(logmachine.run_hypothesis, [(seed * 1000 + j, 200 if tier == "quick" else 1500, (prop,)) for j in range(n_hyp)],
                              timeout=3600, report=rep)
     hyp_examples = 0
     for o in hres:
